@@ -11,6 +11,9 @@ pub mod c07;
 pub mod c08;
 pub mod c09;
 pub mod c10;
+pub mod c13;
+pub mod c14;
+pub mod c15;
 
 #[derive(Clone, Copy, PartialEq, Eq, Debug)]
 pub enum Tier {
@@ -72,6 +75,9 @@ pub fn scenario_by_name(name: &str, params: &Value) -> Scenario {
         "C08" => c08::scenario(name, params),
         "C09" => c09::scenario(name, params),
         "C10" => c10::scenario(name, params),
+        "C13" => c13::scenario(name, params),
+        "C14" => c14::scenario(name, params),
+        "C15" => c15::scenario(name, params),
         _ => {
             eprintln!("MACHINERY: unknown scenario {}", name);
             std::process::exit(2);
@@ -87,6 +93,9 @@ pub fn check_by_id(id: &str, tier: Tier) -> Check {
         "C08" => c08::check(tier),
         "C09" => c09::check(tier),
         "C10" => c10::check(tier),
+        "C13" => c13::check(tier),
+        "C14" => c14::check(tier),
+        "C15" => c15::check(tier),
         _ => {
             eprintln!("MACHINERY: no check for property {}", id);
             std::process::exit(2);
